@@ -637,10 +637,10 @@ impl<'a> Builder<'a> {
                         if is_float {
                             let seed = self.seed ^ (a[3] as u32);
                             if op == "Div" {
-                                // never zero: values in {±0.5, ±1, ±2, ±4}
+                                // never zero: ±{0.5, 1, 2, 4} (exact reciprocals) and ±{3, 0.3, 7, 10} (inexact ones)
                                 self.const_f32(&cshape, |i| {
                                     let h = hash32(seed, i);
-                                    let m = [0.5f32, 1.0, 2.0, 4.0][(h % 4) as usize];
+                                    let m = [0.5f32, 1.0, 2.0, 4.0, 3.0, 0.3, 7.0, 10.0][(h % 8) as usize];
                                     if h & 16 == 0 {
                                         m
                                     } else {
